@@ -49,7 +49,8 @@ Definition op_ok (o : op) : Prop :=
 
 Definition RInv (s : rstate) (al : list ah) : Prop :=
   In (rs_size s) valid_sizes /\
-  Forall2 (fun hd a => Inv (rs_size s) (hd_buf hd) a) (rs_handles s) al.
+  Forall2 (fun hd a => Inv (rs_size s) (hd_buf hd) a) (rs_handles s) al /\
+  (rs_closed s = true -> rs_streams s = []).      (* Close empties n.streams and Bind registers nothing afterwards *)
 
 Lemma Forall2_upd_nth {A B} (R : A -> B -> Prop) f g n : forall l1 l2,
   Forall2 R l1 l2 ->
@@ -77,22 +78,28 @@ Qed.
 
 Lemma rstep_RInv s al o : RInv s al -> op_ok o -> RInv (fst (rstep s o)) (astep al s o).
 Proof.
-  intros [HS HF] Hok. destruct o as [i wid|hid h pay|ssrc pairs|ssrc|]; simpl.
+  intros HI Hok. pose proof HI as (HS & HF & HC). destruct o as [i wid|hid h pay|ssrc pairs|ssrc|]; simpl.
   - (* Bind *)
-    destruct (negb (si_nack i)); simpl; (split; [exact HS|]); apply Forall2_app; auto;
-      constructor; auto; apply Inv_new; auto.
+    destruct (rs_closed s) eqn:Ec.
+    + rewrite Bool.orb_true_r. simpl. split; [exact HS|]. split; [|intros _; exact (HC eq_refl)].
+      apply Forall2_app; auto. constructor; auto. apply Inv_new; auto.
+    + rewrite Bool.orb_false_r.
+      destruct (negb (si_nack i)); simpl; (split; [exact HS|]); (split; [|discriminate]);
+        apply Forall2_app; auto; constructor; auto; apply Inv_new; auto.
   - (* Write *)
-    destruct (nth_error (rs_handles s) hid) as [hd|] eqn:Eh; [|split; auto].
-    destruct (hd_pass hd || negb (h_ssrc h =? si_ssrc (hd_info hd))); [split; auto|].
+    destruct (nth_error (rs_handles s) hid) as [hd|] eqn:Eh; [|exact HI].
+    destruct (hd_pass hd || negb (h_ssrc h =? si_ssrc (hd_info hd))); [exact HI|].
     pose proof (stored_seq s hd h pay) as Hseq. unfold stored in *.
     destruct (if rs_copy s then _ else _) as [res sq]. simpl in *.
-    destruct res as [p|c]; simpl; (split; [exact HS|]); auto.
+    destruct res as [p|c]; simpl; (split; [exact HS|]); (split; [|exact HC]); auto.
     apply Forall2_upd_nth; auto. intros x y Hx Hy Hxy. rewrite Eh in Hx. inversion Hx; subst x. simpl.
     apply Inv_add; auto. rewrite (Hseq p eq_refl). exact Hok.
-  - destruct (amap_find ssrc (rs_streams s)); [destruct (nth_error _ _)|]; simpl; split; auto.
-  - destruct (amap_find ssrc (rs_streams s)) as [hid|]; simpl; (split; [exact HS|]); auto.
-    apply Forall2_upd_nth; auto. intros x y _ _ Hxy. simpl. eapply Inv_clear; eauto.
-  - split; [exact HS|]. simpl. revert HF. generalize (rs_handles s) al.
+  - destruct (rs_closed s); simpl; [exact HI|].
+    destruct (amap_find ssrc (rs_streams s)); [destruct (nth_error _ _)|]; simpl; exact HI.
+  - destruct (amap_find ssrc (rs_streams s)) as [hid|] eqn:Ef; simpl; (split; [exact HS|]); (split; [|]); auto.
+    + apply Forall2_upd_nth; auto. intros x y _ _ Hxy. simpl. eapply Inv_clear; eauto.
+    + intros Hc. rewrite (HC Hc) in Ef. discriminate.
+  - split; [exact HS|]. split; [|reflexivity]. simpl. clear HC HI. revert HF. generalize (rs_handles s) al.
     induction (rs_streams s) as [|kv m IH]; intros l1 l2 HF; simpl; auto.
     apply IH. apply Forall2_upd_nth; auto. intros x y _ _ Hxy. simpl. eapply Inv_clear; eauto.
 Qed.
@@ -105,7 +112,7 @@ Proof.
 Qed.
 
 Lemma RInv_init size copy start : valid_size size = true -> RInv (rinit size copy start) [].
-Proof. intros H. split; simpl; [apply valid_size_In; auto|constructor]. Qed.
+Proof. intros H. split; simpl; [apply valid_size_In; auto|split; [constructor|discriminate]]. Qed.
 
 Definition pairs_ok (pairs : list (Z * Z)) : Prop := Forall (fun p => 0 <= fst p < 65536) pairs.
 
@@ -139,7 +146,9 @@ Theorem nack_response s al ssrc pairs : RInv s al -> pairs_ok pairs ->
               end
           end)).
 Proof.
-  intros [HS HF] Hp. unfold rstep. destruct (amap_find ssrc (rs_streams s)) as [hid|]; [|reflexivity].
+  intros (HS & HF & HC) Hp. unfold rstep.
+  destruct (rs_closed s) eqn:Ec; [rewrite (HC eq_refl); reflexivity|].
+  destruct (amap_find ssrc (rs_streams s)) as [hid|]; [|reflexivity].
   destruct (nth_error (rs_handles s) hid) as [hd|] eqn:Eh; [|reflexivity].
   destruct (Forall2_nth _ _ _ _ _ HF Eh) as (a & Ea & HI). rewrite Ea.
   unfold resend, nack_answer. f_equal. f_equal. apply flat_map_ext_in. intros seq Hin.
